@@ -1,4 +1,39 @@
-(* placeholder header, see below *)
+(* Tie lemmas for harness/translate8.py: Gen/ShadowGen.v (regenerated from csr/bus.py on every run) against
+   Model/Mux.v (and Model/Elab.v's mux_check).  Everything is for ALL inputs; preconditions are spelled out.
+
+   What is proved, method by method
+   _Shadow.__init__     tie_shadow_init: accepted exactly on the valid arguments, and then the empty shadow (size =
+                        init_size [], mutable empty set, no chunks).
+   _Shadow.add          tie_shadow_add (one call, both branches: a frozen set only checks membership, Elab.add_now);
+                        tie_shadow_add_all: adding the registers of a list with pairwise different ranges gives
+                        size = Mux.init_size regs and the set of their ranges.
+                        PRECONDITION NoDup (map rng_of regs): a Python set merges equal ranges, the model's
+                        `Z.of_nat (length regs)` would count them twice; a memory map never yields equal ranges.
+   decode_address / encode_offset   tie_decode_address, tie_encode_offset: the assert, then Mux.decode / Mux.encode
+                        (through Tie.tie_shadow_decode / tie_shadow_encode of the kernel stage).
+   Chunk                tie_chunk, tie_chunk_registers: construction never fails, registers() yields what was given.
+   _Shadow.prepare      tie_prepare: for ANY enumeration `elems` of the set (Permutation: the order in which a Python
+                        set iterates is arbitrary; sorted() makes the loop independent of it, ShadowTie.py_sorted_perm)
+                        and registers in ascending order (what resources() yields; ShadowTie.layout_ascending), whenever
+                        the model's fuelled loop returns Some S' the translated recursion with the SAME fuel returns the
+                        frozen shadow of size S' whose _chunks dict is, in dict order, the model's chunk table
+                        (tie_chunk_table: keys = Mux.table, registers = filter (touches S') regs).  The inner `break`
+                        leaves the outer loop running; that the flag nevertheless equals `can_grow && unbalanced` is
+                        ShadowTie.prepare_loops.  Out of fuel is Err OtherError (RecursionError), the model's None.
+                        Order independence of the MODEL (the size does not depend on the order registers were added):
+                        ShadowTie.shadow_size_perm.
+   _Shadow.chunks       tie_shadow_chunks: the dict items in order; None -> OtherError (AttributeError).
+   _check_memory_map    tie_check_memory_map = Elab.mux_check (TypeError, ValueError, then the AttributeError).
+   Multiplexer.__init__ tie_mux_init: check first, then the two shadows (asserts of _Shadow.__init__), then the bus.
+   elaborate            tie_elaborate (first call, from the constructor's object) and tie_elaborate_again (any later
+                        call: the already-prepared branches): the shadows end up prepared with the sizes of Mux.mk_cfg
+                        and the statement tree is `skeleton`, written below by hand in the order of the code over
+                        the model's chunk tables: per read chunk one Switch with one Case per register touching it at
+                        bus address encode r o, element.r_stb raised in that Case iff encode r o = r_start r, the word
+                        word_select(encode r o - r_start r); per write chunk the same with element.w_stb at
+                        encode r o = r_stop r - 1.  ShadowTie.rsites / wsites relate these to elem_rstb, wstb_next,
+                        ren_next and wen of the model.
+   The model has no exceptions for the shadow asserts; where the code asserts, the lemma states the assert. *)
 From Coq Require Import ZArith List Bool Lia ZifyBool Permutation Sorted String.
 From Soc Require Import Lib.Bits Lib.Res Lib.PyShadow Model.Mux Model.MuxSpec Proofs.ShadowHash Proofs.MuxTable
   Proofs.MuxPrepare Proofs.ShadowTie.
@@ -242,3 +277,244 @@ Proof.
   unfold chunk_of0. rewrite (proj2 (tie_chunk _ _ _)), chunk_regs_filter. reflexivity.
 Qed.
 Print Assumptions tie_chunk_table.
+
+(* ------------------------------------------------------------------ _check_memory_map / Multiplexer.__init__ *)
+Definition res_ok (x : resource) : bool := rs_has_element x && rs_flow_out x && rs_is_sig x && rs_sig_elem x.
+
+Theorem tie_check_memory_map : forall mm,
+  gen_mux_check_memory_map mm =
+  match Elab.mux_check (mm_is_map mm) (negb (is_nil (mm_windows mm))) (existsb (fun x => negb (res_ok x)) (mm_resources mm)) with
+  | 0 => Ok tt | 1 => Err ValueError | 2 => Err TypeError | _ => Err OtherError
+  end.
+Proof.
+  intros mm. unfold gen_mux_check_memory_map, Elab.mux_check.
+  destruct (mm_is_map mm); cbn [negb]; [|reflexivity].
+  destruct (is_nil (mm_windows mm)); cbn [negb]; [|reflexivity].
+  rewrite (py_for_check (fun x => negb (res_ok x)) OtherError).
+  - destruct (existsb _ _); reflexivity.
+  - intros x []. unfold res_ok. destruct (negb _); reflexivity.
+Qed.
+Print Assumptions tie_check_memory_map.
+
+Theorem tie_mux_init : forall mm ov,
+  gen_mux_init mm ov =
+  match gen_mux_check_memory_map mm with
+  | Err e => Err e
+  | Ok _ =>
+      if valid_shadow_args (VInt (mm_data_width mm)) ov (VStr [SLit "r_shadow"])
+      then Ok (mk_mux (mk_shadow (VStr [SLit "r_shadow"]) (VInt (mm_data_width mm)) ov set_new (init_size []) None)
+                      (mk_shadow (VStr [SLit "w_shadow"]) (VInt (mm_data_width mm)) ov set_new (init_size []) None)
+                      (mm_addr_width mm) (mm_data_width mm) mm)
+      else Err AssertionError
+  end.
+Proof.
+  intros mm ov. unfold gen_mux_init. destruct (gen_mux_check_memory_map mm) as [[]|e]; [|reflexivity].
+  cbn [bind]. rewrite !tie_shadow_init.
+  unfold valid_shadow_args. cbn [is_str]. destruct (_ && _ && _); reflexivity.
+Qed.
+Print Assumptions tie_mux_init.
+
+(* ------------------------------------------------------------------ Multiplexer.elaborate *)
+Definition res_of (r : reg) : resource := mk_resource (r_start r) (r_stop r) (r_rd r) (r_wr r) true true true true.
+
+Theorem tie_chunk_registers : forall c, gen_chunk_registers c = Ok (ch_registers c).
+Proof. intros c. unfold gen_chunk_registers. reflexivity. Qed.
+Print Assumptions tie_chunk_registers.
+
+Lemma encode_offset_rng s o (x : rng) :
+  gen_shadow_encode_offset s o x = if set_mem x (sh_ranges s) then Ok (encode (mkreg x) o) else Err AssertionError.
+Proof. rewrite <- (rng_of_mkreg x) at 1 2. apply tie_encode_offset. Qed.
+
+(* the skeleton, written by hand in the order of the code: what one register adds to the Switch of a read chunk,
+   what one read chunk adds to the module, the same for write chunks *)
+Definition r_reg_step (dw : Z) (c : chunk) (o : Z) (st : list astmt * list aval * list aval) (x : rng) :=
+  let '(m, wf, df) := st in
+  let ca := encode (mkreg x) o in
+  (m ++ [SCase ca ((if ca =? rstart x then [SAdd "comb" (AEq (AElem (rstart x) "r_stb") (APort "bus.r_stb"))] else [])
+                   ++ [SAdd "sync" (AEq (ch_r_en c) (APort "bus.r_stb"))])],
+   wf ++ [AElem (rstart x) "r_stb"],
+   df ++ [AMux (AElem (rstart x) "r_stb") (AWordSel (AElem (rstart x) "r_data") (ca - rstart x) dw) (AConst 0)]).
+
+Definition r_chunk_step (dw : Z) (st : list astmt * list aval) (oc : Z * chunk) :=
+  let '(m, rf) := st in
+  let '(o, c) := oc in
+  let '(mi, wf, df) := fold_left (r_reg_step dw c o) (ch_registers c) ([], [], []) in
+  (m ++ [SAdd "sync" (AEq (ch_r_en c) (AConst 0));
+         SSwitch (APort "bus.addr") mi;
+         SAdd "comb" (AEq (ch_w_en c) (AOrReduce wf));
+         SIf (ch_w_en c) [SAdd "sync" (AEq (ch_data c) (AOrReduce df))]],
+   rf ++ [AMux (ch_r_en c) (ch_data c) (AConst 0)]).
+
+Definition w_reg_step (dw : Z) (c : chunk) (o : Z) (m : list astmt) (x : rng) :=
+  let ca := encode (mkreg x) o in
+  m ++ (if ca =? rstop x - 1 then [SAdd "sync" (AEq (AElem (rstart x) "w_stb") (AConst 0))] else [])
+    ++ [SCase ca ((if ca =? rstop x - 1 then [SAdd "sync" (AEq (AElem (rstart x) "w_stb") (APort "bus.w_stb"))] else [])
+                  ++ [SAdd "comb" (AEq (ch_w_en c) (APort "bus.w_stb"))]);
+        SAdd "comb" (AEq (AWordSel (AElem (rstart x) "w_data") (ca - rstart x) dw) (ch_data c))].
+
+Definition w_chunk_step (dw : Z) (m : list astmt) (oc : Z * chunk) :=
+  let '(o, c) := oc in
+  m ++ [SSwitch (APort "bus.addr") (fold_left (w_reg_step dw c o) (ch_registers c) []);
+        SIf (ch_w_en c) [SAdd "sync" (AEq (ch_data c) (APort "bus.w_data"))]].
+
+Definition skeleton (dw : Z) (rchunks wchunks : list (Z * chunk)) : list astmt :=
+  let '(m1, rf) := fold_left (r_chunk_step dw) rchunks ([], []) in
+  fold_left (w_chunk_step dw) wchunks (m1 ++ [SAdd "comb" (AEq (APort "bus.r_data") (AOrReduce rf))]).
+
+(* the first loop of elaborate(): every register goes to the shadows its access mode names *)
+Lemma elab_adds aw dw mm body :
+  (forall r mx, body (res_of r) mx =
+     (let! mx1 := (if r_rd r then (let! s := gen_shadow_add (mx_r_shadow mx) (rng_of r) in Ok (set_mx_r_shadow mx s)) else Ok mx) in
+      let! mx2 := (if r_wr r then (let! s := gen_shadow_add (mx_w_shadow mx1) (rng_of r) in Ok (set_mx_w_shadow mx1 s)) else Ok mx1) in
+      Ok (mx2, false))) ->
+  forall regs rs ws rs' ws',
+  add_all rs (filter r_rd regs) = Ok rs' -> add_all ws (filter r_wr regs) = Ok ws' ->
+  py_for (map res_of regs) body (mk_mux rs ws aw dw mm) = Ok (mk_mux rs' ws' aw dw mm).
+Proof.
+  intros Hb. induction regs as [|r regs IH]; intros rs ws rs' ws' Hr Hw.
+  - cbn in *. congruence.
+  - cbn [map py_for filter] in *. rewrite Hb. cbn [mx_r_shadow mx_w_shadow].
+    destruct (r_rd r); destruct (r_wr r); cbn [add_all] in Hr, Hw; cbn [bind];
+      repeat match goal with
+             | H : match gen_shadow_add ?s ?x with Ok _ => _ | Err _ => _ end = Ok _ |- _ =>
+                 destruct (gen_shadow_add s x) eqn:?; [|discriminate]
+             end; cbn [bind set_mx_r_shadow set_mx_w_shadow mx_r_shadow mx_w_shadow mx_bus_addr_width mx_bus_data_width mx_bus_memory_map];
+      repeat match goal with H : gen_shadow_add _ _ = Ok _ |- _ => rewrite H; clear H end;
+      cbn [bind set_mx_r_shadow set_mx_w_shadow mx_r_shadow mx_w_shadow mx_bus_addr_width mx_bus_data_width mx_bus_memory_map];
+      apply IH; assumption.
+Qed.
+
+Definition prepared (nm : pystr) (g ovv : pyint) (elems : list rng) (S : Z) (regs : list reg) : shadow :=
+  mk_shadow nm g ovv (mk_rset elems true) S (Some (chunks_of nm g S regs)).
+
+Lemma chunk_of_registers s o l : ch_registers (chunk_of s o l) = l.
+Proof.
+  pose proof (proj2 (tie_chunk s o l)) as H. rewrite tie_chunk_registers in H. congruence.
+Qed.
+
+Lemma chunks_of_registers nm g S regs o c : In (o, c) (chunks_of nm g S regs) ->
+  forall x, In x (ch_registers c) -> In x (map rng_of regs).
+Proof.
+  unfold chunks_of, chunk_dict. rewrite map_map. intros H x Hx. apply in_map_iff in H. destruct H as (o' & E & Hin).
+  cbn [fst snd] in E. inversion E; subst o' c. clear E.
+  unfold chunk_of0 in Hx. rewrite chunk_of_registers in Hx.
+  apply in_map_iff in Hx. destruct Hx as (r & <- & Hr). apply in_map.
+  rewrite chunk_regs_filter in Hr. apply filter_In in Hr. tauto.
+Qed.
+
+Lemma elab_core : forall fuel regs aw dw mm rs ws ra wa nmr gr ovr er Sr nmw gw ovw ew Sw,
+  mm_resources mm = map res_of regs ->
+  add_all rs (filter r_rd regs) = Ok ra -> add_all ws (filter r_wr regs) = Ok wa ->
+  gen_shadow_prepare fuel ra = Ok (prepared nmr gr ovr er Sr (filter r_rd regs)) ->
+  gen_shadow_prepare fuel wa = Ok (prepared nmw gw ovw ew Sw (filter r_wr regs)) ->
+  Permutation er (map rng_of (filter r_rd regs)) -> Permutation ew (map rng_of (filter r_wr regs)) ->
+  gen_mux_elaborate fuel (mk_mux rs ws aw dw mm) =
+  Ok (mk_mux (prepared nmr gr ovr er Sr (filter r_rd regs)) (prepared nmw gw ovw ew Sw (filter r_wr regs)) aw dw mm,
+      skeleton dw (chunks_of nmr gr Sr (filter r_rd regs)) (chunks_of nmw gw Sw (filter r_wr regs))).
+Proof.
+  intros fuel regs aw dw mm rs ws ra wa nmr gr ovr er Sr nmw gw ovw ew Sw Hres Hra Hwa Hpr Hpw Hper Hpew.
+  remember (prepared nmr gr ovr er Sr (filter r_rd regs)) as Pr eqn:HPr.
+  remember (prepared nmw gw ovw ew Sw (filter r_wr regs)) as Pw eqn:HPw.
+  assert (HcR : sh_chunks Pr = Some (chunks_of nmr gr Sr (filter r_rd regs))) by (subst; reflexivity).
+  assert (HcW : sh_chunks Pw = Some (chunks_of nmw gw Sw (filter r_wr regs))) by (subst; reflexivity).
+  assert (HmR : forall x, In x (map rng_of (filter r_rd regs)) -> set_mem x (sh_ranges Pr) = true).
+  { intros x Hx. subst Pr. apply set_mem_In. cbn. apply Permutation_in with (map rng_of (filter r_rd regs)); [symmetry|]; assumption. }
+  assert (HmW : forall x, In x (map rng_of (filter r_wr regs)) -> set_mem x (sh_ranges Pw) = true).
+  { intros x Hx. subst Pw. apply set_mem_In. cbn. apply Permutation_in with (map rng_of (filter r_wr regs)); [symmetry|]; assumption. }
+  clear HPr HPw.
+  unfold gen_mux_elaborate. cbn [mx_bus_memory_map]. rewrite Hres.
+  match goal with |- context [py_for (map res_of regs) ?b _] => rewrite (elab_adds aw dw mm b) with (rs' := ra) (ws' := wa) end;
+    [|intros r mx; cbn [res_of rs_readable rs_writable rs_start rs_stop]; reflexivity|exact Hra|exact Hwa].
+  cbn [bind mx_r_shadow]. rewrite Hpr. cbn [bind]. unfold set_mx_r_shadow.
+  cbn [mx_r_shadow mx_w_shadow mx_bus_addr_width mx_bus_data_width mx_bus_memory_map].
+  rewrite Hpw. cbn [bind]. unfold set_mx_w_shadow.
+  cbn [mx_r_shadow mx_w_shadow mx_bus_addr_width mx_bus_data_width mx_bus_memory_map].
+  rewrite !tie_shadow_chunks, HcR, HcW. cbn [bind].
+  match goal with |- context [py_for (chunks_of nmr gr Sr ?R) ?b ?i] =>
+    rewrite (py_for_fold (chunks_of nmr gr Sr R) b (r_chunk_step dw)) end.
+  2:{ intros [o c] [m rf] Hin. cbn beta iota. rewrite tie_chunk_registers. cbn [bind].
+      match goal with |- context [py_for (ch_registers c) ?b ?i] =>
+        rewrite (py_for_fold (ch_registers c) b (r_reg_step dw c o)) end.
+      - unfold r_chunk_step. cbn [bind]. destruct (fold_left _ _ _) as [[mi wf] df].
+        cbn [app]. repeat rewrite <- app_assoc. reflexivity.
+      - intros x [[m' wf] df] Hx. cbn beta iota. rewrite encode_offset_rng.
+        rewrite (HmR x (chunks_of_registers _ _ _ _ _ _ Hin x Hx)). cbn [bind]. unfold r_reg_step.
+        destruct (_ =? _); cbn [bind app]; reflexivity. }
+  cbn [bind]. unfold skeleton. destruct (fold_left (r_chunk_step dw) _ _) as [m1 rf]. cbn [bind].
+  match goal with |- context [py_for (chunks_of nmw gw Sw ?R) ?b ?i] =>
+    rewrite (py_for_fold (chunks_of nmw gw Sw R) b (w_chunk_step dw)) end.
+  2:{ intros [o c] m Hin. cbn beta iota. rewrite tie_chunk_registers. cbn [bind].
+      match goal with |- context [py_for (ch_registers c) ?b ?i] =>
+        rewrite (py_for_fold (ch_registers c) b (w_reg_step dw c o)) end.
+      - unfold w_chunk_step. cbn [bind app]. repeat rewrite <- app_assoc. reflexivity.
+      - intros x m' Hx. cbn beta iota. rewrite encode_offset_rng.
+        rewrite (HmW x (chunks_of_registers _ _ _ _ _ _ Hin x Hx)). cbn [bind]. unfold w_reg_step.
+        destruct (_ =? _); cbn [bind app]; repeat rewrite <- app_assoc; reflexivity. }
+  cbn [bind]. reflexivity.
+Qed.
+
+Definition ov_of (o : option Z) : pyint := match o with Some v => VInt v | None => VNone end.
+Definition fresh (nm : pystr) (g ovv : pyint) : shadow := mk_shadow nm g ovv set_new (init_size []) None.
+Definition ov_eff (o : option Z) (regs : list reg) : Z := match o with Some v => v | None => Z.of_nat (List.length regs) end.
+
+Lemma prepare_fresh fuel nm g ov regs S :
+  ascending regs -> shadow_size ov regs = Some S -> (prepare_fuel regs <= fuel)%nat ->
+  exists ra, add_all (fresh nm g (ov_of ov)) regs = Ok ra /\
+             gen_shadow_prepare fuel ra = Ok (prepared nm g (VInt (ov_eff ov regs)) (map rng_of regs) S regs).
+Proof.
+  intros Hasc Hs Hf. eexists. split; [apply tie_shadow_add_all; apply ascending_NoDup_rng; exact Hasc|].
+  assert (E : eff_ov (ov_of ov) regs = ov_eff ov regs) by (destruct ov; reflexivity).
+  unfold prepared. rewrite <- E. apply tie_prepare; [exact Hasc|apply Permutation_refl|destruct ov; cbn; eauto|].
+  rewrite E. unfold shadow_size in Hs. apply (prepare_more_fuel _ _ _ _ _ _ Hs Hf).
+Qed.
+
+(* MAIN (first elaboration): from the object Multiplexer.__init__ builds, elaborate() leaves both shadows prepared with
+   the sizes of Mux.mk_cfg and returns the skeleton over the model's chunk tables *)
+Theorem tie_elaborate : forall fuel regs dw aw ov mm c nmr nmw g,
+  wf_layout regs -> mm_resources mm = map res_of regs -> mk_cfg dw regs ov = Some c ->
+  (prepare_fuel (filter r_rd regs) <= fuel)%nat -> (prepare_fuel (filter r_wr regs) <= fuel)%nat ->
+  gen_mux_elaborate fuel (mk_mux (fresh nmr g (ov_of ov)) (fresh nmw g (ov_of ov)) aw dw mm) =
+  Ok (mk_mux (prepared nmr g (VInt (ov_eff ov (rregs c))) (map rng_of (rregs c)) (c_Sr c) (rregs c))
+             (prepared nmw g (VInt (ov_eff ov (wregs c))) (map rng_of (wregs c)) (c_Sw c) (wregs c)) aw dw mm,
+      skeleton dw (chunks_of nmr g (c_Sr c) (rregs c)) (chunks_of nmw g (c_Sw c) (wregs c))).
+Proof.
+  intros fuel regs dw aw ov mm c nmr nmw g Hwf Hres Hc Hfr Hfw.
+  destruct (mk_cfg_sizes _ _ _ _ Hc) as [Hsr Hsw].
+  assert (Hregs : c_regs c = regs).
+  { unfold mk_cfg in Hc. destruct (shadow_size ov (filter r_rd regs)); [|discriminate].
+    destruct (shadow_size ov (filter r_wr regs)); [|discriminate]. inversion Hc. reflexivity. }
+  unfold rregs, wregs. rewrite Hregs.
+  pose proof (layout_ascending _ Hwf) as Hasc.
+  destruct (prepare_fresh fuel nmr g ov _ _ (ascending_filter r_rd _ Hasc) Hsr Hfr) as (ra & Hra & Hpr).
+  destruct (prepare_fresh fuel nmw g ov _ _ (ascending_filter r_wr _ Hasc) Hsw Hfw) as (wa & Hwa & Hpw).
+  apply (elab_core fuel regs aw dw mm _ _ ra wa); try assumption; apply Permutation_refl.
+Qed.
+Print Assumptions tie_elaborate.
+
+Lemma add_all_frozen s : rs_frozen (sh_ranges s) = true -> forall l,
+  (forall r, In r l -> set_mem (rng_of r) (sh_ranges s) = true) -> add_all s l = Ok s.
+Proof.
+  intros Hf. induction l as [|r l IH]; intros H; [reflexivity|]. cbn [add_all].
+  rewrite tie_shadow_add, Hf, (H r (or_introl eq_refl)). apply IH. intros r' Hr'. apply H. right; exact Hr'.
+Qed.
+
+(* MAIN (every later elaboration): on the prepared object add() only checks membership, prepare() returns at once, and
+   the same skeleton is produced again; `er` / `ew` are ANY enumerations of the two frozen sets *)
+Theorem tie_elaborate_again : forall fuel regs dw aw mm nmr gr ovr er Sr nmw gw ovw ew Sw,
+  mm_resources mm = map res_of regs ->
+  Permutation er (map rng_of (filter r_rd regs)) -> Permutation ew (map rng_of (filter r_wr regs)) ->
+  let mx := mk_mux (prepared nmr gr ovr er Sr (filter r_rd regs)) (prepared nmw gw ovw ew Sw (filter r_wr regs)) aw dw mm in
+  gen_mux_elaborate (S fuel) mx =
+  Ok (mx, skeleton dw (chunks_of nmr gr Sr (filter r_rd regs)) (chunks_of nmw gw Sw (filter r_wr regs))).
+Proof.
+  intros fuel regs dw aw mm nmr gr ovr er Sr nmw gw ovw ew Sw Hres Hper Hpew mx. unfold mx.
+  apply (elab_core (S fuel) regs aw dw mm _ _ (prepared nmr gr ovr er Sr (filter r_rd regs))
+                   (prepared nmw gw ovw ew Sw (filter r_wr regs))); try assumption.
+  - apply add_all_frozen; [reflexivity|]. intros r Hr. apply set_mem_In. cbn.
+    apply Permutation_in with (map rng_of (filter r_rd regs)); [symmetry; exact Hper|apply in_map; exact Hr].
+  - apply add_all_frozen; [reflexivity|]. intros r Hr. apply set_mem_In. cbn.
+    apply Permutation_in with (map rng_of (filter r_wr regs)); [symmetry; exact Hpew|apply in_map; exact Hr].
+  - apply tie_prepare_frozen. reflexivity.
+  - apply tie_prepare_frozen. reflexivity.
+Qed.
+Print Assumptions tie_elaborate_again.
